@@ -1071,7 +1071,9 @@ def run_tie(chk, C, F, tie_inputs):
                     sign, digits, ex = dv.as_tuple()
                     if not isinstance(ex, int):
                         continue
-                    add("number", 515, [[sign, ex], [48 + x for x in digits]], [[1] + codes(st[fld])], dict(inf, field=fld, value=str(dv)))
+                    # the TEXT of a rendered number is not constrained by the property (same value read back + the writer's own
+                    # fixed point are): the token, read by the model of Decimal(text), must denote the number's value (cmd 518)
+                    add("number", 518, [[sign, ex], [48 + x for x in digits], codes(st[fld])], [[1]], dict(inf, field=fld, value=str(dv), token=st[fld]))
                     s2n, d2n, e2n = D(st[fld]).as_tuple()
                     add("number", 516, [codes(st[fld])], [[1, s2n, e2n], [48 + x for x in d2n]], dict(inf, field=fld, token=st[fld]))
                 # GenSigStartValue (integer signals, definition without default)
@@ -1194,7 +1196,7 @@ def run_tie(chk, C, F, tie_inputs):
         dv = D(t)
         sign, digits, ex = dv.as_tuple()
         tok = impl_format_float(dv)
-        add("number", 515, [[sign, ex], [48 + x for x in digits]], [[1] + codes(tok)], dict(value=t))
+        add("number", 518, [[sign, ex], [48 + x for x in digits], codes(tok)], [[1]], dict(value=t, token=tok))
         s2n, d2n, e2n = D(tok).as_tuple()
         add("number", 516, [codes(tok)], [[1, s2n, e2n], [48 + x for x in d2n]], dict(token=tok))
     for t in ["", "-", ".", "E5", "1E", "1E+", "1.2.3", "abc"]:
